@@ -12,6 +12,9 @@ Loop life-cycle: `fresh → running → stopped → shutting → closed`; `is_ru
 `running` and in `shutting` (`asyncio.run` runs the loop again to cancel the leftovers); loops
 are not restarted.  An invocation left pending on a loop that stops is an *orphan*: it can only
 be cancelled or abandoned (the property's wording), i.e. its `iend` can only be `cancelled`.
+All callers and loops live in one process: since fix c698ebe an in-flight marker also carries the
+pid of its owner and a marker of another process (a forked child looking at what it inherited) is
+taken over like the marker of a dead loop - exercised by scripted scenarios, not by this LTS.
 
 Program counters of a caller:
 ```
